@@ -904,6 +904,18 @@ impl Inner {
         };
         match message {
             IoLoopMessage::ConnectionClose(buf) => {
+                // What the channels handed us before the application asked for the close
+                // goes out first - also while we are not listening to them because of
+                // backpressure; once writes are sealed it would be dropped silently.
+                let mut ids: Vec<u16> = self.chan_slots.iter().map(|(id, _)| *id).collect();
+                ids.sort_unstable();
+                for id in ids {
+                    while let Some(Ok(queued)) =
+                        self.chan_slots.get(id).map(|slot| slot.rx.try_recv())
+                    {
+                        self.process_channel_message(id, queued)?;
+                    }
+                }
                 self.outbuf.append(buf);
                 self.seal_writes();
             }
